@@ -585,6 +585,9 @@ func (s *Store) flushTick() {
 }
 
 func (s *Store) commit() (types.Work, error) {
+	// Only blocks freed before the index flush below may reach the freelist
+	// file: the change that superseded them is then durable.
+	freed := s.freelist.Pending()
 	primaryWork, err := s.index.Primary.Flush()
 	if err != nil {
 		return 0, err
@@ -594,7 +597,7 @@ func (s *Store) commit() (types.Work, error) {
 		return 0, err
 	}
 	verifhook.Yield("store.commit.afterIndexFlush")
-	flWork, err := s.freelist.Flush()
+	flWork, err := s.freelist.FlushN(freed)
 	if err != nil {
 		return 0, err
 	}
